@@ -1254,6 +1254,99 @@ impl TransactionalMemory {
         self.storage.flush()
     }
 
+    // Verification hook: a read-only copy of the in-memory allocation state
+    #[cfg(redb_verif)]
+    pub(crate) fn verif_snapshot(&self) -> crate::db::VerifMemSnapshot {
+        fn raw(page: PageNumber) -> u64 {
+            u64::from_le_bytes(page.to_le_bytes())
+        }
+        fn root(header: Option<BtreeHeader>) -> Option<(u64, u128, u64)> {
+            header.map(|h| (raw(h.root), h.checksum, h.length))
+        }
+        let state = self.state.lock().unwrap();
+        let layout = state.header.layout();
+        let allocated = state.allocators.as_ref().map(|a| {
+            a.region_allocators
+                .iter()
+                .take(layout.num_regions() as usize)
+                .map(BuddyAllocator::verif_allocated_flags)
+                .collect()
+        });
+        let latest = state.latest_slot();
+        let primary = state.header.primary_slot();
+        let snapshot_roots = (
+            root(latest.user_root),
+            root(latest.system_root),
+            latest.transaction_id.raw_id(),
+            root(primary.user_root),
+            root(primary.system_root),
+            primary.transaction_id.raw_id(),
+        );
+        let geometry = (
+            self.page_size,
+            layout.full_region_layout().get_header_pages(),
+            layout.full_region_layout().num_pages(),
+            layout.num_full_regions(),
+            layout
+                .trailing_region_layout()
+                .map(|x| x.num_pages())
+                .unwrap_or_default(),
+        );
+        let read_from_secondary = state.read_from_secondary;
+        drop(state);
+        let unpersisted = self.unpersisted.lock().unwrap();
+        let mut unpersisted_pages: Vec<u64> = unpersisted.pages.iter().map(|p| raw(*p)).collect();
+        unpersisted_pages.sort_unstable();
+        let mut unpersisted_allocations = vec![];
+        for (txn, pages) in &unpersisted.allocations {
+            for page in pages {
+                unpersisted_allocations.push((txn.raw_id(), raw(*page)));
+            }
+        }
+        unpersisted_allocations.sort_unstable();
+        let mut unpersisted_data_freed = vec![];
+        for (txn, pages) in &unpersisted.data_freed {
+            for page in pages {
+                unpersisted_data_freed.push((txn.raw_id(), raw(*page)));
+            }
+        }
+        let mut post_commit_allocations: Vec<u64> = unpersisted
+            .post_commit_allocations
+            .iter()
+            .map(|p| raw(*p))
+            .collect();
+        post_commit_allocations.sort_unstable();
+        crate::db::VerifMemSnapshot {
+            page_size: geometry.0,
+            region_header_pages: geometry.1,
+            region_max_data_pages: geometry.2,
+            full_regions: geometry.3,
+            trailing_pages: geometry.4,
+            allocated,
+            data_root: snapshot_roots.0,
+            system_root: snapshot_roots.1,
+            last_committed_transaction: snapshot_roots.2,
+            durable_data_root: snapshot_roots.3,
+            durable_system_root: snapshot_roots.4,
+            last_durable_transaction: snapshot_roots.5,
+            read_from_secondary,
+            needs_repair: self.needs_repair(),
+            unpersisted_pages,
+            unpersisted_allocations,
+            unpersisted_data_freed,
+            post_commit_allocations,
+        }
+    }
+
+    // Verification hook: the bytes of a page as a reader would see them (buffered writes included)
+    #[cfg(redb_verif)]
+    pub(crate) fn verif_read_page(&self, raw_page_number: u64) -> Option<Vec<u8>> {
+        let page = PageNumber::from_le_bytes(raw_page_number.to_le_bytes());
+        self.get_page(page, PageHint::None)
+            .ok()
+            .map(|p| p.memory().to_vec())
+    }
+
     pub(crate) fn pending_non_durable_commit(&self) -> bool {
         self.state.lock().unwrap().read_from_secondary
     }
